@@ -2,7 +2,7 @@
 compiled vs. a seeded subset of fact predicates re-implemented as registered generator
 functions) driven by the same consumer schedule incl. abandonment; an injected raise in
 the native predicate must reach the consumer as the same object (DESIGN.md section 4, C20)."""
-import random
+import random, sys
 from .. import core, terms as TM, progs
 from ..seams import Sim, make_simyp
 from . import c03
@@ -15,7 +15,7 @@ RULE = ('one run = one seeded world (program generator of C03: cut, ;, ->, \\+, 
         'every fact predicate compiled, engine B with a seeded non-empty subset of them supplied as registered generator functions (fresh '
         'variables per invocation, registration style inferred / explicit / variadic, yield value True / False), a seeded subset also having '
         'identical dynamic facts in both. Both engines get the same consumer schedule: full enumeration, abandonment after every k by close and '
-        'by drop, re-run; then on B every native invocation j x {raise before first yield, raise on resumption}. A case = one twin comparison or '
+        'by drop, re-run; then on B every native invocation j x {raise before first yield, raise on resumption}, the first 6 of them also with the query consumed through evaluate_bounded; in 30% of the runs finally clear() on both engines, the query, the all-compiled script loaded into both, the query again. A case = one twin comparison or '
         'one injected raise; non-trivial = at least one native invocation happened in it; distinct = hash of (rule text, native set and styles, '
         'schedule step, number of native invocations)')
 ASSUMPTIONS = [
@@ -26,7 +26,7 @@ ASSUMPTIONS = [
 COMPONENTS = {'real': ['yldprolog.compiler', 'yldprolog.engine query/register_function/match_dynamic, module-level unify/get_value', 'generated clause code'],
               'stub': ['consumer schedule (enumerate / close / drop / re-run)', 'native predicates built from the fact tables, with raise switches'],
               'oracle': ['twin engine A (all compiled) under the same schedule; identity of the injected exception object; argument types seen by the natives']}
-REQUIRED_PROBES = ('late_script_appended_to_native', 'engine_with_earlier_registrations', 'style_decorated', 'style_delegate', 'twin_comparisons', 'native_invocations', 'style_inferred', 'style_explicit', 'style_variadic', 'yield_true', 'yield_false',
+REQUIRED_PROBES = ('raise_fired_under_evaluate_bounded', 'clear_phase', 'late_script_appended_to_native', 'engine_with_earlier_registrations', 'style_decorated', 'style_delegate', 'twin_comparisons', 'native_invocations', 'style_inferred', 'style_explicit', 'style_variadic', 'yield_true', 'yield_false',
                    'raise_fired', 'raise_arrived_same_object', 'native_next_to_dynamic_facts', 'abandon_close', 'abandon_drop')
 TERM_TYPES = {'Atom', 'Variable', 'Functor', 'int', 'str', 'float', 'NoneType', 'bool'}
 
@@ -66,7 +66,7 @@ def gen(seed, tier):
         if cands:
             n, a = cands[0][:2]
             late = [n, a, [[['a', 'late%d' % j]] + [['a', 'x']] * (a - 1) if a else [] for j in range(rng.randrange(1, 3))]]
-    return {'world': world, 'faults': 'all', 'warmup': rng.random() < 0.4, 'late': late}
+    return {'world': world, 'faults': 'all', 'warmup': rng.random() < 0.4, 'late': late, 'clear_phase': rng.random() < 0.3}
 
 
 sample_view = c03.sample_view
@@ -146,7 +146,6 @@ def execute(plan):
 
     try:
         try:
-            import sys
             with core.LineBudget(c03.R1_LINE_BUDGET, {sys.modules['yldprolog.engine'].__file__}) as lb:
                 r = twin(None, 'exhaust', ['R1'])
             log.lines += lb.count
@@ -163,10 +162,58 @@ def execute(plan):
         if faults == 'all':
             faults = [['abandon', k, mode] for k in range(n + 1) for mode in ('close', 'drop')]
             faults += [['raise', j, ph, core.INJECTED_KINDS[(j + i) % 4]] for j in range(1, min(ncalls, c03.MAX_RAISE_POINTS) + 1) for i, ph in enumerate(('pre', 'resume'))]
+            # the same with the query consumed through evaluate_bounded (which absorbs RuntimeError, and only that)
+            faults += [['raise-bounded', j, ('pre', 'resume')[j % 2], core.INJECTED_KINDS[j % 4]] for j in range(1, min(ncalls, 6) + 1)]
         for fault in faults:
+            if fault[0] == 'clear':
+                continue
             if fault[0] == 'abandon':
                 log.count('abandon_' + fault[2])
                 if twin(min(fault[1], n), fault[2], fault) is None:
+                    return log.result()
+            elif fault[0] == 'raise-bounded':
+                log.count('cases')
+                ctlB['fault'] = (fault[1], fault[2])
+                ctlB['calls'] = 0
+                ctlB['fired'] = 0
+                ctlB['exc'] = core.INJECTED[fault[3]]('injected')
+                ans = []
+
+                class StopProj(Exception):
+                    pass
+
+                def proj(_):
+                    if len(ans) >= c03.ANSWER_CAP:
+                        raise StopProj()
+                    ans.append(c03.observe_answer(sim, qargsB))
+                    return len(ans)
+                try:
+                    ypB.evaluate_bounded(ypB.query(name, qargsB), proj, recursion_limit=sys.getrecursionlimit())
+                    end = 'returned'
+                except RecursionError:
+                    end = 'exc:RecursionError'
+                except StopProj:
+                    end = 'cap'
+                except Exception as e:
+                    end = 'boom' if e is ctlB['exc'] else 'exc:' + type(e).__name__
+                fired = ctlB['fired']
+                ctlB['fault'] = None
+                del ctlB['args'][:]
+                log.ev('raise-bounded', fault[1], fault[2], fault[3], end, len(ans), fired)
+                if fired:
+                    log.count('raise_fired_under_evaluate_bounded')
+                    absorbed = isinstance(ctlB['exc'], RuntimeError)
+                    if end != 'cap' and ((end != 'returned') if absorbed else (end != 'boom')):
+                        log.violation('native-exception-changed', {'fault': fault, 'arrived_as': end, 'answers_before': len(ans),
+                                                                   'note': 'consumed through evaluate_bounded, which absorbs RuntimeError and nothing else'})
+                        return log.result()
+                    if ans != ra[0][:len(ans)]:
+                        log.violation('answers-before-exception-differ', {'fault': fault, 'answers_before': len(ans)})
+                        return log.result()
+                    log.key((shape, 'raise-bounded', fault[2], fault[3], len(ans)))
+                ctlB['exc'] = None
+                if not clean() and not end.startswith('exc:'):
+                    log.violation('bindings-left-after-native-exception', {'fault': fault})
                     return log.result()
             else:
                 log.count('cases')
@@ -194,6 +241,25 @@ def execute(plan):
                     return log.result()
         if plan['faults'] == 'all' and twin(None, 'exhaust', ['R_last']) is None:
             return log.result()
+        if (plan.get('clear_phase') and plan['faults'] == 'all') or plan['faults'] == [['clear']]:
+            # clear() on both: whatever was compiled and whatever was registered is gone alike; then the same
+            # all-compiled script is loaded into both, without overwrite
+            ypA.clear()
+            ypB.clear()
+            log.count('clear_phase')
+            if twin(None, 'exhaust', ['clear']) is None:
+                return log.result()
+            from yldprolog.compiler import compile_prolog_from_string
+            import io, contextlib
+            try:
+                with contextlib.redirect_stderr(io.StringIO()):
+                    code_ = compile_prolog_from_string(progs.world_source(worldA))
+            except Exception:
+                raise c03.Discard('compile')
+            ypA.load_script_from_string(code_, fn='<sim:world2>', overwrite=False)
+            ypB.load_script_from_string(code_, fn='<sim:world2>', overwrite=False)
+            if twin(None, 'exhaust', ['clear', 'reload']) is None:
+                return log.result()
     except c03.Discard as d:
         return log.result(discard=str(d))
     except (TM.TooDeep, RecursionError):
@@ -204,8 +270,10 @@ def execute(plan):
 def narrow(plan, viol):
     f = viol['detail'].get('fault') or viol['detail'].get('step')
     c = dict(plan)
-    if f and f[0] in ('abandon', 'raise'):
+    if f and f[0] in ('abandon', 'raise', 'raise-bounded'):
         c['faults'] = [f]
+    elif f and f[0] == 'clear':
+        c['faults'] = [['clear']]
     elif f and f[0] == 'R1':
         c['faults'] = []
     else:
